@@ -44,13 +44,13 @@ CFG = {
         "one case = one scenario on real sessions (phases of back-to-back issued events, observation at quiescence after "
         "each phase); classes: one terminating event after 0..20 queued sends (8 events x pipe/TCP), every ordered pair "
         "of terminating events sequentially and racing in one burst, flush with 0..20 sends (burst / one by one / "
-        "stalled peer that later reads), blocked write then each event, zero-length payloads between real ones, slow drain (50-65 queued sends, local Close, write timeout 800 ms, a peer reading one chunk every 40 ms so that the drain lasts 2-4 write timeouts while no write waits near one; net.Pipe and loopback TCP with every payload byte 8 KiB on the wire and 32 KiB socket buffers; a case is emitted only when the longest interval between peer reads and the latest 2 ms watchdog tick both stayed below a third of the write timeout, else retried up to 3 times and dropped, counted in harness_meta), the manager's own read and "
+        "stalled peer that later reads), blocked write then each event, zero-length payloads between real ones, slow drain (50-65 queued sends, local Close, write timeout 800 ms, a peer reading one chunk every 40 ms so that the drain lasts 2-4 write timeouts while no write waits near one; net.Pipe and loopback TCP with every payload byte 8 KiB on the wire and 32 KiB socket buffers; a case is emitted only when the longest interval between peer reads and the latest 2 ms watchdog tick both stayed below a third of the write timeout, else retried up to 3 times and dropped, counted in harness_meta), concurrent Sends from 2-8 goroutines on one session in one to three rounds, then Close (small payloads, and large ones: every payload symbol is 8 or 32 KiB handed to Session.Send, 40 KiB-1.1 MiB per call, folded back by the peer; the calls are released by a spin barrier so that they overlap; the phase is marked concurrent and the order in which the calls took effect is read off the observation and checked in Coq to be a permutation of them), peer bytes written after the session is over (the handler must stay silent), a third of all scenarios with a connection whose Close closes and then returns an error, the manager's own read and "
         "write deadlines firing, accept loop with maxConn 0..3 (random arrivals, surplus, exits, re-arrivals), several "
         "sessions on one manager, random walks with bursts; non-trivial = at least one session ended (OnExit observed) "
         "or one connection was closed on accept; distinct = distinct Coq case term"
     ),
     "trusted": [
-        "fault-injecting net.Conn wrapper (passes through to net.Pipe / loopback TCP; on command makes the pending or next Read / Write return an error or an expired deadline; counts Close calls)",
+        "fault-injecting net.Conn wrapper (passes through to net.Pipe / loopback TCP; on command makes the pending or next Read / Write return an error or an expired deadline; counts Close calls; over TCP it also offers CloseWrite like *net.TCPConn, so a half-close is not mistaken for a close; optional: Close returns an error after closing; optional byte amplification towards the wire for the slow-drain class)",
         "goroutine census by runtime.Stack: goroutines inside stcp.(*Session).loopSend / loopReceive keyed by the receiver pointer printed in the frame, parked = wait reason sync.Cond.Wait in q.pop / select in net.(*pipe) / IO wait; quiescence = every observed goroutine parked AND the observation equals a stable state the model predicts, polled with a 10 s upper bound (no sleeps as evidence)",
         "stcp.IConnMgr wrapper around the real SessionMgr that wraps the accepted connection before handing it to SessionMgr.Do",
     ],
@@ -59,6 +59,7 @@ CFG = {
         "read and write deadlines fire (observed in class natural-timeout)",
         "deferred quit/recovery run when the read handler panics (Go defer/recover semantics)",
         "only the accept goroutine increments the count through SessionMgr.Do; exits only decrement, so the test-then-increment of the accept loop is one (internal) label Accept, separate from the client's Arrive",
+        "the value returned by conn.Close is ignored by the session (as coded: it is only logged); a connection whose Close reports an error is closed nevertheless",
         "a panic inside the OnExit callback is outside the statement",
     ],
     "lint": [],
